@@ -990,7 +990,14 @@ impl ErasedNode for Node {
         } else if !self.is_necessary() {
             NodeUpdateDelayed::Unnecessary
         } else {
-            match self.value_as_any().is_some() {
+            /* Only report [Changed] if the value changed in the stabilisation that just ended
+            ([stabilisation_num] has already been bumped). A node is also handled after
+            stabilisation when observers or subscriptions are added to it; existing handlers
+            must not be told about a change that did not happen. */
+            let changed_now = self.state_opt().map_or(true, |t| {
+                self.changed_at.get().add1() == t.stabilisation_num.get()
+            });
+            match self.value_as_any().is_some() && changed_now {
                 true => NodeUpdateDelayed::Changed,
                 false => NodeUpdateDelayed::Necessary,
             }
